@@ -87,13 +87,9 @@ func checkC01(c *Ctx, r *Report) {
 		for _, role := range []string{"fbb.Session.writeCompressed", "fbb.Session.readCompressed"} {
 			for _, ci := range callsTo(fn, false, role) {
 				args := ci.Common().Args
-				obj := pathOf(args[len(args)-1])
-				good := false
-				for _, cd := range condsAt(ci.Block()) {
-					if o, k, eq, ok := answerIs(cd); ok && eq && k == accept && o == obj {
-						good = true
-					}
-				}
+				// locally, or - when the proposal is a parameter of an unexported helper - at every
+				// call of the helper for the proposal passed there (ip_g1.go)
+				good := c.answerHoldsAt(fn, ci, args[len(args)-1], accept, 0)
 				what := "payload write"
 				if strings.HasSuffix(role, "readCompressed") {
 					what = "payload read"
@@ -439,21 +435,12 @@ func frameLenRule(c *Ctx, r *Report, pr *prover, rule string) {
 			}
 			// the bytes that follow: a loop bounded by the same length, or a write of a slice of that length
 			o = r.Add(rule, where, "block body has the announced length", c.pos(ci.Pos()))
-			okBody := false
-			eachInstr(fn, func(_ *ssa.BasicBlock, _ int, in ssa.Instruction) {
-				if b, isB := in.(*ssa.BinOp); isB && b.Op.String() == "<" && b.Y == n {
-					okBody = true // for i := 0; i < msgLen; i++ { WriteByte }
-				}
-				if w, isCall := in.(*ssa.Call); isCall && callName(&w.Call) == "bufio.Writer.Write" && w != ci {
-					if lc, isLen := n.(*ssa.Call); isLen && callName(&lc.Call) == "builtin.len" && lc.Call.Args[0] == w.Call.Args[1] {
-						okBody = true // Write(chunk) with length byte len(chunk)
-					}
-				}
-			})
-			if okBody {
-				o.OK("the bytes written after the header are counted by the same value as the length byte")
+			if hdr, isCall := ci.(*ssa.Call); !isCall {
+				o.Bad("the STX header is written by a deferred or spawned call: what follows it cannot be related to the length byte")
+			} else if okBody, how := stxBodyCounted(pr, hdr, n); okBody {
+				o.OK("the bytes written after the header are counted by the same value as the length byte (%s)", how)
 			} else {
-				o.Bad("the number of bytes written after the STX header is not tied to the length byte")
+				o.Bad("the number of bytes written after the STX header is not tied to the length byte (%s)", how)
 			}
 		case 1:
 			foundSOH = true
